@@ -37,6 +37,21 @@ TABLE["C11"] = {
             "numpy.fft/scipy.fftpack are oracles for the Fourier sums. Trusted: Coq kernel + Reals axioms, extraction, numf.ml, driver.",
     "technique": "Coq proof over R/C (trigonometric identities, Flocq rounding lemmas, finite sums) + extracted-OCaml and vm_compute correspondence",
 }
+TABLE["C10"] = {
+    "text": "Coq theorems (half period P a parameter, instantiated with pi): matrix entry [j,i] = f(-P+2Pi/n, -P+2Pj/n); the "
+            "interpolation kernel returns the entries at the nodes, the bilinear form of the four neighbours (indices modulo n) in "
+            "between, is 2P-periodic in both angles and agrees at +-P; index in [0,n) and fraction in [0,1) for every real angle; "
+            "rotation by k grid steps commutes with shifting both indices; the FFT route of rotate_matrix is that circular shift "
+            "(2-D finite Fourier sums, signed fftfreq indices); linear frequency interpolation reproduces the samples. Tie: "
+            "extracted model vs interpolate_matrix on real/complex matrices n=2..33 (nodes, node+-ulp, seam, +-3 periods), model "
+            "angles vs make_angles, shifted-matrix model vs rotate_matrix, lerp vs ScatFromData; spec predicates evaluated on the "
+            "implementation (nodes, periodicity, seam, midpoint rule, rotate = roll, layout of real scatterer matrices, data "
+            "reproduced at sampled frequencies, MAT round trip for every key subset and frequencies shape).",
+    "note": "Oracles: numpy.fft (finite Fourier sums), scipy interp1d, MAT I/O. Python float // and % are modelled by their exact meaning "
+            "(the interpolant is continuous, so node-boundary rounding is inside the 1e-11 tolerance). Trusted: Coq kernel + Reals axioms, "
+            "extraction, numf.ml, driver.",
+    "technique": "Coq proof over R/C (Flocq floor lemmas, modular arithmetic, finite Fourier sums) + extracted-OCaml differential correspondence",
+}
 NOT_APPLICABLE = {}
 TABLE["C15"] = {
     "text": "Coq theorems (axiom-free, list induction) about an executable model of arim's frame bookkeeping: fmc / hmc list every "
@@ -59,4 +74,36 @@ TABLE["C15"] = {
             "np.isin, CPython set/dict semantics (exercised by the tie). apply_filter is covered for row-wise filters only (premise "
             "filter_ok; the harness uses scalar multiples). Scalar (non-list) indices and tuple indices are outside the property.",
     "technique": "Coq proof by list induction (NoDup / Permutation / StronglySorted) + vm_compute correspondence on chains of operations",
+}
+TABLE["C18"] = {
+    "text": "Coq theorems (axiom-free) about an executable model of arim's view/path naming: for every duplicate-free list of path "
+            "names make_viewnames lists every ordered pair exactly once (n^2, a permutation of the product) in strictly ascending "
+            "documented order (the Python key tuple compared as tuples is proved equal to the documented criteria, a strict total "
+            "order, with Python's stable sort modelled as a stable insertion sort); reciprocal_viewname is an involution; "
+            "filter_unique_views on any duplicate-free list keeps the order, keeps v iff v is the first member of {v, recip v}, hence "
+            "exactly one member of every class for reversal-closed name sets, and never drops a view whose reciprocal is absent; "
+            "for all 10 examination objects (immersion with/without back wall; contact with/without front wall, back wall, "
+            "under-material) and every max_number_of_reflection in Z, make_interfaces+make_paths equal the independently written "
+            "documented wiring (names in order, block modes = the name, interface sequence, kinds, transmission/reflection, "
+            "reflection_against, normal-side flags derived from the up/down direction of the legs, materials) or raise in the "
+            "documented cases (finite part by vm_compute, bound in the statement); make_views_from_paths on any dictionary gives view "
+            "X-Y = (paths[X], paths[reversed Y]) and succeeds iff the keys are reversal-closed; in every configuration view X-Y has "
+            "tx block legs X, rx block legs reversed Y and scat_key last(X)+first(Y); Path.reverse, Interface.reverse, Rays.reverse "
+            "are involutions (modes, materials, kinds, flags, rays; reversed indices = same rays backwards) and are defined on every "
+            "configuration path. Tie (all exact): the real make_viewnames / filter_unique_views / reciprocal_viewname on random "
+            "reversal-closed and arbitrary name sets (words up to 5 letters, order_func default/None, unique on/off), the real "
+            "make_interfaces, make_paths, make_views of block_in_immersion and block_in_contact for every configuration and "
+            "max_number_of_reflection -2..7, make_views_from_paths on random sub-dictionaries, Interface(...) and Interface.reverse on "
+            "every attribute combination, Path.reverse with random Rays on configuration and random paths: names, order, modes, "
+            "materials and points by identity, kinds, flags, normal sides, scat_key, error class and rays arrays are compared with the "
+            "model evaluated by vm_compute in coqc; the spec predicates (n^2 pairs once, sortedness by the written-out criteria, one "
+            "and the first of each class, tx/rx wiring and object identity, documented interface sequences, double reversal) are "
+            "evaluated directly on the implementation's outputs.",
+    "note": "Trusted: Coq kernel; harness encoding of arim objects as integers (identity of points/materials, enum members). "
+            "Points, orientations and materials are opaque (identity only). Path names are words over {L,T}; other strings are outside "
+            "the model. Which exception type reports a missing wall/name (KeyError vs ValueError) is not part of the property and is "
+            "compared as one class. The count n(n+1)/2 of unique views is checked at run time and by Examples (21, 105), not stated "
+            "as a general theorem. Python object plumbing (OrderedDict, namedtuple, numpy transposition) is exercised by the tie only.",
+    "technique": "Coq proof by list induction (Permutation / NoDup / StronglySorted, lexicographic comparison combinators) + finite "
+                 "case analysis by vm_compute + vm_compute correspondence on every configuration and random name sets",
 }
